@@ -719,4 +719,58 @@ theorem setUniformBytes_spec (x : List Int) (hx : x.length = 114) (hb : AllIn 0 
   obtain ⟨h1, h2, h3⟩ := reduce_spec x hx hb
   exact ⟨_, by unfold setUniformBytes; rw [if_pos hx], ⟨h1, h2⟩, h3⟩
 
+
+/-- the RFC 8032 §5.2.5 pruned 56-octet string: low two bits of octet 0 cleared, top bit of octet 55 set -/
+def clamp56 (x : List Int) : List Int :=
+  let b0 := x.getD 0 0
+  let b55 := x.getD 55 0
+  (b0 - b0 % 4) :: (x.take 55).drop 1 ++ [if b55 % 256 ≥ 128 then b55 else b55 + 128]
+
+theorem evalLE_append_zeros (a : List Int) (n : Nat) : evalLE (a ++ zeros n) = evalLE a := by
+  induction a with
+  | nil =>
+    simp only [List.nil_append, evalLE]
+    induction n with
+    | zero => rfl
+    | succ n ih => simp only [zeros, List.replicate_succ, evalLE] at ih ⊢; rw [ih]; ring
+  | cons x xs ih => simp only [List.cons_append, evalLE, ih]
+
+/-- `SetBytesWithClamping`: for every 57-octet input the result is the canonical encoding of the pruned
+    value modulo l (octet 56 is ignored, as in the Go code) -/
+theorem setBytesWithClamping_spec (x : List Int) (hx : x.length = 57) (hb : AllIn 0 255 x) :
+    ∃ r, setBytesWithClamping x = some r ∧ Str56 r ∧ evalLE r = evalLE (clamp56 x) % L448 := by
+  have h0 := hb (x.getD 0 0) (by
+    rw [List.getD_eq_getElem?_getD, List.getElem?_eq_getElem (show 0 < x.length by omega)]; simp)
+  have h55 := hb (x.getD 55 0) (by
+    rw [List.getD_eq_getElem?_getD, List.getElem?_eq_getElem (show 55 < x.length by omega)]; simp)
+  have hmid : AllIn 0 255 ((x.take 55).drop 1) := fun y hy => hb y (List.mem_of_mem_take (List.mem_of_mem_drop hy))
+  have hwide : setBytesWithClamping x = some (reduce (clamp56 x ++ [0] ++ zeros 57)) := by
+    unfold setBytesWithClamping clamp56
+    rw [if_pos hx]
+    simp [List.append_assoc]
+  have hlen : (clamp56 x ++ [0] ++ zeros 57).length = 114 := by
+    simp [clamp56, zeros, hx]
+  have hall : AllIn 0 255 (clamp56 x ++ [0] ++ zeros 57) := by
+    intro y hy
+    have hcl : AllIn 0 255 (clamp56 x) := by
+      intro z hz
+      simp only [clamp56, List.mem_append, List.mem_cons, List.mem_nil_iff, or_false] at hz
+      rcases hz with (h | h) | h
+      · subst h; constructor <;> omega
+      · exact hmid z h
+      · subst h
+        split <;> constructor <;> omega
+    simp only [List.mem_append, List.mem_cons, List.mem_nil_iff, or_false, zeros, List.mem_replicate] at hy
+    rcases hy with (h | h) | h
+    · exact hcl y h
+    · subst h; decide
+    · rw [h.2]; decide
+  obtain ⟨r1, r2, r3⟩ := reduce_spec _ hlen hall
+  refine ⟨_, hwide, ⟨r1, r2⟩, ?_⟩
+  rw [r3, evalLE_append_zeros]
+  have : evalLE (clamp56 x ++ [0]) = evalLE (clamp56 x) := by
+    have := evalLE_append_zeros (clamp56 x) 1
+    simpa [zeros] using this
+  rw [this]
+
 end C16Sc
